@@ -26,6 +26,9 @@ type Workload struct {
 	Serial bool
 	// PerCaseTimeoutS overrides the default watchdog allowance per batch.
 	BatchTimeoutS int
+	// CaseTimeoutS: wall-clock allowance for ONE case (the worker's journal
+	// must grow within it); 0 = defaultCaseTimeout.
+	CaseTimeoutS int
 	// Procs: GOMAXPROCS of the worker (default 1).
 	Procs int
 	// MaxWorkers caps the number of parallel workers for this workload (0 = default).
@@ -50,6 +53,9 @@ type Violation struct {
 	Workload string `json:"workload"`
 	Index    int64  `json:"index"`
 	Case     any    `json:"case,omitempty"`
+	// HistoryFrom: the violation needs cases [HistoryFrom, Index) to have run
+	// in the same process first (hangs that depend on earlier cases)
+	HistoryFrom *int64 `json:"history_from,omitempty"`
 }
 
 // Result is what a worker reports for a batch of cases.
